@@ -31,6 +31,9 @@ def plans(draw, h2):
             p["framing"] = "cl"
         p["conn_close"] = draw(st.sampled_from([False, False, False, True]))
         p["interim"] = draw(st.sampled_from([[], [], [], [100], [103, 103]])) if p["version"] == "1.1" else []
+        if p["framing"] == "close" or p["conn_close"] or p["version"] == "1.0":
+            # over TLS the server may end the stream with close_notify alone and keep the TCP connection until the client answers
+            p["close_notify_only"] = draw(st.booleans())
         if p["framing"] == "chunked":
             p["chunks"] = [draw(st.integers(1, 50 if not big else 20000)) for _ in range(2)]
             if big:
@@ -340,6 +343,20 @@ def judge(sc, run, world, callers, mon, lost, q_stats):
                     multiplexed = True
             if disrupted or any(e.get("closes") for e in exs[:-1]):
                 reuse_after_disruption = True
+    if not is_h2(kind):
+        # HTTP/1.1: once a read on a connection has returned the end of the stream the server is gone; a request written to it afterwards
+        # means that a connection the client KNEW to be closed was handed to another request
+        eof_seen = {}
+        for op in world.trace:
+            if op["kind"] == "read" and op.get("n") == 0 and op.get("exc") is None and not op.get("blocked"):
+                eof_seen.setdefault(op["pipe"], op["seq"])
+            elif op["kind"] == "write" and op.get("data") and op["pipe"] in eof_seen and op.get("exc") is None:
+                p = world.pipes[op["pipe"]]
+                if p.neg_written is None or op["w_off"] >= p.neg_written:
+                    v1.append(V("C01", "reused-closed-connection", f"pipe {op['pipe']} ({kind}): request bytes {bytes(op['data'][:40])!r} were written at op {op['seq']} "
+                                f"although a read on this connection had already returned the end of the stream at op {eof_seen[op['pipe']]} "
+                                f"(the server ended it{' inside TLS only: close_notify, TCP still open' if p.eof_hidden else ''})", **base))
+                    break
     early = any(s["mode"] in ("read1", "read2", "close_unread") for c in sc["callers"] for s in c["program"])
     # ------------------------------------------------------------------ C04
     for k, msg in mon.violations:
